@@ -112,3 +112,138 @@ Theorem nonvacuous_reads :
   read_uint false BE [18%N; 52%N; 171%N] 4 12 = Some 842 /\
   read_int false LE [18%N; 52%N; 171%N] 12 12 = Some (-1357).
 Proof. exact ex_reads. Qed.
+
+(* ------------------------------------------------------------------------------------------------------------
+   The MemoryAccessor / ContiguousBuffer layer (Bits/Accessor.v), which the theorems above only REPRESENT by
+   [container_load]: template selection over (kAlignment, kOffset, kBits), the storage element type CharT
+   (char is signed here), the byte loops with their cast chains, the memcpy and whole-object
+   (EMBOSS_ALIAS_SAFE_POINTER_CAST) variants with the X_ENDIAN_TO_NATIVE macros on a little- or big-endian host,
+   builtin or portable ByteSwap, and the static (alignment, offset) bookkeeping of GetOffsetStorage.
+
+   acc_pre c A K n base mem p :=  1 <= n <= 8  /\  IsPowerOfTwo(A)  /\  0 <= K < A  /\  IsAliasSafe<c>  /\
+                                  p + n <= length mem  /\  (base + p) mod A = K      (the static claim holds)
+   [cfg] ranges over every build configuration (host endianness, macros defined or not, pointer cast available
+   or not, builtin or portable byte swap); mem is the memory as bytes, the pointer is base + p.
+   ------------------------------------------------------------------------------------------------------------ *)
+Require Import EmbossV.Bits.Accessor EmbossV.Bits.ProofsAccessor.
+
+(* MemoryAccessor<CharT, A, K, 8n>::ReadLittleEndianUInt = sum of byte_i * 256^i, whatever specialisation is selected *)
+Theorem accessor_read_le_spec : forall cfg c A K (n : nat) base mem p,
+  acc_pre c A K n base mem p -> Forall byte mem ->
+  accessor_read cfg c false A K (8 * Z.of_nat n) base mem p = Some (of_le (sub_storage mem p n)).
+Proof. exact accessor_read_le_spec_l. Qed.
+
+Theorem accessor_read_be_spec : forall cfg c A K (n : nat) base mem p,
+  acc_pre c A K n base mem p -> Forall byte mem ->
+  accessor_read cfg c true A K (8 * Z.of_nat n) base mem p = Some (of_be (sub_storage mem p n)).
+Proof. exact accessor_read_be_spec_l. Qed.
+
+(* formerly an assumption tested every run: static alignment does not change the function computed, and that
+   function is the [container_load] of Bits/Model.v (either runtime configuration [opt] of that model) *)
+Theorem aligned_reads_agree : forall cfg c be A K (n : nat) base mem p opt,
+  acc_pre c A K n base mem p -> Forall byte mem ->
+  accessor_read cfg c be A K (8 * Z.of_nat n) base mem p = accessor_read cfg c be 1 0 (8 * Z.of_nat n) base mem p /\
+  accessor_read cfg c be A K (8 * Z.of_nat n) base mem p
+  = container_load opt (order_of be) (8 * Z.of_nat n) (sub_storage mem p n).
+Proof. exact aligned_reads_agree_l. Qed.
+
+(* the result does not depend on the signedness of the storage element type *)
+Theorem char_storage_irrelevant : forall cfg c1 c2 be A K (n : nat) base mem p,
+  acc_pre c1 A K n base mem p -> alias_safe c2 = true -> Forall byte mem ->
+  accessor_read cfg c1 be A K (8 * Z.of_nat n) base mem p = accessor_read cfg c2 be A K (8 * Z.of_nat n) base mem p.
+Proof. exact char_storage_irrelevant_reads_l. Qed.
+
+(* whichever definition the template chain ends in is applicable under the claim of its first link: the
+   whole-object specialisations are only reached with an address that is a multiple of the object size *)
+Theorem selection_sound : forall fuel cfg c A K kbits addr s,
+  select fuel cfg c A K kbits = Some s -> addr mod A = K ->
+  match s with
+  | SpecBytes => kbits mod 8 = 0 /\ alias_safe c = true
+  | SpecWhole => specialised cfg = true /\ (kbits = 16 \/ kbits = 32 \/ kbits = 64) /\ addr mod (kbits / 8) = 0
+  end.
+Proof. exact select_sound. Qed.
+
+Theorem selection_total : forall cfg c A K kbits,
+  is_pow2 A = true -> 0 <= K < A -> kbits mod 8 = 0 -> alias_safe c = true ->
+  exists s, select (select_fuel A) cfg c A K kbits = Some s.
+Proof. exact select_total. Qed.
+
+(* GetOffsetStorage<SA, SK>(offset, _) of a ContiguousBuffer<_, A, K> at [addr]: the (alignment, offset) the result
+   type claims follows from the parent's claim and the claim about [offset] that the back end derives from the
+   field's start expression (header_generator._alignment_of_location: modulus and modular_value of
+   expression_bounds, SA = 0 for a constant start; that those bound the run-time value is C05's theorem);
+   the size_t wrap of K + SK is harmless; the result satisfies ContiguousBuffer's static_asserts *)
+Theorem alignment_bookkeeping_sound : forall A K SA SK A' K' addr offset,
+  is_pow2 A = true -> A < 2 ^ 64 -> 0 <= SA ->
+  offset_storage_type A K SA SK = Some (A', K') ->
+  claim A K addr -> sub_claim SA SK offset ->
+  claim A' K' (addr + offset) /\ is_pow2 A' = true /\ 0 <= K' < A' /\ (A' | A).
+Proof. exact alignment_bookkeeping_sound_l. Qed.
+
+Theorem greatest_common_divisor_is_gcd : forall a b, 0 <= a -> 0 <= b ->
+  greatest_common_divisor a b = Some (Z.gcd a b).
+Proof. exact greatest_common_divisor_spec. Qed.
+
+(* the checked entry point ContiguousBuffer::Read{Little,Big}EndianUInt<8n>(): both EMBOSS_CHECKs pass *)
+Theorem buffer_read_checked : forall cfg c be A K (n : nat) base mem p,
+  acc_pre c A K n base mem p -> Forall byte mem ->
+  buffer_read cfg c true be A K (8 * Z.of_nat n) base mem p n
+  = Some (container_valz (order_of be) (sub_storage mem p n)).
+Proof. exact buffer_read_checked_l. Qed.
+
+(* __builtin_bswapN and the portable ByteSwap overloads are the same involution *)
+Theorem bswap_involutive : forall (n : nat) x, 0 <= x < 2 ^ (8 * Z.of_nat n) ->
+  bswap (8 * Z.of_nat n) (bswap (8 * Z.of_nat n) x) = x.
+Proof. exact bswap_involutive_l. Qed.
+
+Theorem byte_swap_is_reversal : forall builtin ct x, std_cty ct -> 0 <= x < 2 ^ cbits ct ->
+  byte_swap builtin ct x = Some (bswap (cbits ct) x).
+Proof. exact byte_swap_spec. Qed.
+
+Theorem byte_swap_involutive : forall b1 b2 ct x, std_cty ct -> 0 <= x < 2 ^ cbits ct ->
+  exists y, byte_swap b1 ct x = Some y /\ byte_swap b2 ct y = Some x.
+Proof. exact byte_swap_involutive_l. Qed.
+
+(* casts that are NECESSARY.  Without static_cast<uint8_t> a byte >= 0x80 in char storage is sign-extended: *)
+Theorem read_loop_without_uint8_cast_refuted :
+  exists c mem v, alias_safe c = true /\ Forall byte mem /\ length mem = 2%nat /\
+    read_le_loop_with (cast_read_no_u8 (uty 16)) (uty 16) c mem 0 2 0 0 = Some v /\ v <> of_le mem /\
+    read_le_loop (uty 16) c mem 0 2 0 0 = Some (of_le mem).
+Proof. exact read_loop_without_uint8_cast_refuted_l. Qed.
+
+(* without static_cast<Unsigned> the shift happens in int and its count reaches the width of int: *)
+Theorem read_loop_without_widening_cast_refuted :
+  exists c mem, alias_safe c = true /\ Forall byte mem /\ length mem = 8%nat /\
+    read_le_loop_with (cast_read_no_widen (uty 64)) (uty 64) c mem 0 8 0 0 = None /\
+    read_le_loop (uty 64) c mem 0 8 0 0 = Some (of_le mem).
+Proof. exact read_loop_without_widening_cast_refuted_l. Qed.
+
+(* the static claim is NECESSARY: with a false one the selected whole-object access is undefined *)
+Theorem false_static_claim_refuted :
+  exists cfg c A K base mem p, acc_pre c 1 0 8 base mem p /\ Forall byte mem /\ is_pow2 A = true /\ 0 <= K < A /\
+    ~ claim A K (base + Z.of_nat p) /\
+    accessor_read cfg c false A K 64 base mem p = None /\
+    accessor_read cfg c false 1 0 64 base mem p = Some (of_le (sub_storage mem p 8)).
+Proof. exact false_claim_refuted_l. Qed.
+
+(* signed char is not an alias-safe storage type: the byte specialisation does not instantiate *)
+Theorem signed_char_rejected : forall fuel cfg kbits, select fuel cfg CharSigned 1 0 kbits = None.
+Proof. exact signed_char_rejected_l. Qed.
+
+Theorem nonvacuous_accessor_pre :
+  acc_pre CharPlain 8 4 4 64 ex_mem 4 /\ acc_pre CharPlain 8 3 3 64 ex_mem 3 /\ Forall byte ex_mem.
+Proof. exact ex_acc_pre. Qed.
+
+Theorem nonvacuous_accessor :
+  select (select_fuel 8) cfg_gcc CharPlain 8 4 32 = Some SpecWhole /\
+  select (select_fuel 8) cfg_gcc CharPlain 8 3 24 = Some SpecBytes /\
+  accessor_read cfg_gcc CharPlain false 8 4 32 64 ex_mem 4 = Some 2289526527 /\
+  accessor_read cfg_portable CharPlain false 8 4 32 64 ex_mem 4 = Some 2289526527 /\
+  accessor_read (mk_config false true true false) CharPlain true 8 4 32 64 ex_mem 4 = Some 4284905352 /\
+  accessor_read cfg_swap_portable CharStdByte true 8 3 24 64 ex_mem 3 = Some 8453990 /\
+  accessor_write cfg_portable CharPlain true 8 3 24 64 ex_mem 3 11259375
+  = Some [17; 34; 51; 171; 205; 239; 119; 136; 153; 170; 187; 204] /\
+  accessor_write (mk_config false true true true) CharPlain false 8 4 32 64 ex_mem 4 2864434397
+  = Some [17; 34; 51; 128; 221; 204; 187; 170; 153; 170; 187; 204] /\
+  offset_storage_type 8 3 0 5 = Some (8, 0) /\ offset_storage_type 8 3 12 1 = Some (4, 0).
+Proof. exact ex_accessor. Qed.
